@@ -266,6 +266,75 @@ Proof.
   rewrite Hk, Hc. simpl. apply F2lt_map_minus. now apply rev_ops_strict.
 Qed.
 
+(* ---- the same, for every single-product end-use, with or without carbon revenue (the carbon series is the
+   same in both runs; it must cover the years the product is sold, as map2 truncates to the shorter series) ---- *)
+Lemma map2_length {A B C : Type} (f : A -> B -> C) : forall a b, length (map2 f a b) = Nat.min (length a) (length b).
+Proof. induction a as [|x a IH]; intros [|y b]; simpl; auto. Qed.
+Lemma F2lt_map2_plus_l : forall a a', Forall2_one_lt a a' -> forall b b', Forall2 Qle b b' ->
+  (length a <= length b)%nat -> Forall2_one_lt (map2 Qplus a b) (map2 Qplus a' b').
+Proof.
+  intros a a' H. induction H as [x y l l' Hxy Hl | x y l l' Hxy _ IH]; intros b b' Hb Hlen;
+    (destruct Hb as [|u u' b b' Hu Hb]; simpl in Hlen; [lia|]); simpl.
+  - apply F2lt_here; [lra | now apply F2le_map2_plus].
+  - apply F2lt_later; [lra | apply IH; [assumption | lia]].
+Qed.
+Lemma withc_strict (carbon : bool) (k : Q) (carb base base' : list Q) : Forall2_one_lt base base' ->
+  (carbon = true -> (length base <= length carb)%nat) ->
+  Forall2_one_lt (map (fun r => r - k) (if carbon then map2 Qplus base carb else base))
+                 (map (fun r => r - k) (if carbon then map2 Qplus base' carb else base')).
+Proof.
+  intros H Hl. apply F2lt_map_minus. destruct carbon; [|assumption].
+  apply F2lt_map2_plus_l; [assumption | apply F2le_refl | now apply Hl].
+Qed.
+Lemma rev_ops_length_le e p n : (length e <= n)%nat -> (length (rev_ops e p) <= n)%nat.
+Proof. unfold rev_ops. rewrite map2_length. lia. Qed.
+
+Theorem npv_strict_in_electricity_price_carbon r c pE pE' : 0 < 1 + r ->
+  ci_kind c = KElec -> nonneg (ci_eE c) -> Forall2 Qle pE pE' ->
+  (ci_carbon c = true -> (length (ci_eE c) <= length (ci_pCarb c))%nat) ->
+  (exists j, 0 < nth j (ci_eE c) 0 /\ nth j pE 0 < nth j pE' 0 /\ (j < length (ci_eE c))%nat /\ (j < length pE)%nat) ->
+  npv r (total_cashflow (with_prices c pE (ci_pH c) (ci_pC c))) < npv r (total_cashflow (with_prices c pE' (ci_pH c) (ci_pC c))).
+Proof.
+  intros Hr Hk HE Hp Hlen Hj. apply npv_strict_mono; [assumption|].
+  unfold total_cashflow. cbn [with_prices ci_cy ci_ccap]. unfold capex_year. cbn [with_prices ci_cy ci_ccap].
+  apply F2lt_app_l. unfold total_ops.
+  cbn [with_prices ci_kind ci_eE ci_eH ci_eC ci_pE ci_pH ci_pC ci_carbon ci_gi ci_ni ci_pCarb ci_coam].
+  rewrite Hk. unfold product_rev_ops, carbon_rev_ops, carbon_lbs_ops.
+  apply withc_strict; [now apply rev_ops_strict|].
+  intros Hc. rewrite map2_length, map_length. apply rev_ops_length_le. specialize (Hlen Hc). lia.
+Qed.
+
+Theorem npv_strict_in_heat_price r c pH pH' : 0 < 1 + r ->
+  ci_kind c = KHeat -> nonneg (ci_eH c) -> Forall2 Qle pH pH' ->
+  (ci_carbon c = true -> (length (ci_eH c) <= length (ci_pCarb c))%nat) ->
+  (exists j, 0 < nth j (ci_eH c) 0 /\ nth j pH 0 < nth j pH' 0 /\ (j < length (ci_eH c))%nat /\ (j < length pH)%nat) ->
+  npv r (total_cashflow (with_prices c (ci_pE c) pH (ci_pC c))) < npv r (total_cashflow (with_prices c (ci_pE c) pH' (ci_pC c))).
+Proof.
+  intros Hr Hk HE Hp Hlen Hj. apply npv_strict_mono; [assumption|].
+  unfold total_cashflow. cbn [with_prices ci_cy ci_ccap]. unfold capex_year. cbn [with_prices ci_cy ci_ccap].
+  apply F2lt_app_l. unfold total_ops.
+  cbn [with_prices ci_kind ci_eE ci_eH ci_eC ci_pE ci_pH ci_pC ci_carbon ci_gi ci_ni ci_pCarb ci_coam].
+  rewrite Hk. unfold product_rev_ops, carbon_rev_ops, carbon_lbs_ops.
+  apply withc_strict; [now apply rev_ops_strict|].
+  intros Hc. rewrite map2_length, map_length. apply rev_ops_length_le. specialize (Hlen Hc). lia.
+Qed.
+
+(* cooling: the avoided-carbon series of a cooling plant is computed from the heat series (end-use HEAT branch) *)
+Theorem npv_strict_in_cooling_price r c pC pC' : 0 < 1 + r ->
+  ci_kind c = KCool -> nonneg (ci_eC c) -> Forall2 Qle pC pC' ->
+  (ci_carbon c = true -> (length (ci_eC c) <= length (ci_eH c))%nat /\ (length (ci_eC c) <= length (ci_pCarb c))%nat) ->
+  (exists j, 0 < nth j (ci_eC c) 0 /\ nth j pC 0 < nth j pC' 0 /\ (j < length (ci_eC c))%nat /\ (j < length pC)%nat) ->
+  npv r (total_cashflow (with_prices c (ci_pE c) (ci_pH c) pC)) < npv r (total_cashflow (with_prices c (ci_pE c) (ci_pH c) pC')).
+Proof.
+  intros Hr Hk HE Hp Hlen Hj. apply npv_strict_mono; [assumption|].
+  unfold total_cashflow. cbn [with_prices ci_cy ci_ccap]. unfold capex_year. cbn [with_prices ci_cy ci_ccap].
+  apply F2lt_app_l. unfold total_ops.
+  cbn [with_prices ci_kind ci_eE ci_eH ci_eC ci_pE ci_pH ci_pC ci_carbon ci_gi ci_ni ci_pCarb ci_coam].
+  rewrite Hk. unfold product_rev_ops, carbon_rev_ops, carbon_lbs_ops.
+  apply withc_strict; [now apply rev_ops_strict|].
+  intros Hc. rewrite map2_length, map_length. apply rev_ops_length_le. destruct (Hlen Hc). lia.
+Qed.
+
 (* ---------- an add-on with zero cost and zero gains changes nothing ---------- *)
 (* EconomicsAddOns: every yearly energy gets the add-on's gain added; CAPEX / OPEX get the add-on's totals added *)
 Definition addon_energy (gain : Q) (e : list Q) : list Q := map (fun x => x + gain) e.
